@@ -320,13 +320,13 @@ class Ctx:
     """One execution path."""
 
     def __init__(self, prefix=(), timeout_ms=20000, max_decisions=2000,
-                 stats=None, div_mode='fork', concrete=None):
+                 stats=None, div_mode='fork', concrete=None, logic=None):
         self.prefix = list(prefix)
         self.trace = []          # decisions taken on this path
         self.alts = []           # unexplored prefixes discovered on this path
         self.timeout_ms = timeout_ms
         self.max_decisions = max_decisions
-        self.solver = z3.Solver()
+        self.solver = z3.SolverFor(logic) if logic else z3.Solver()
         self.solver.set('timeout', timeout_ms)
         self.stats = stats if stats is not None else Stats()
         self.atoms = []
@@ -1606,7 +1606,8 @@ class SBV:
 
 # --------------------------------------------------------------------------
 def explore(fn, *, timeout_ms=20000, max_paths=100000, max_decisions=2000,
-            div_mode='fork', stats=None, root=(), wall_s=None, on_path=None):
+            div_mode='fork', stats=None, root=(), wall_s=None, on_path=None,
+            logic=None):
     """Run ``fn(ctx)`` on every feasible path (re-execution DFS).
 
     Returns a list of path records: dict(trace, outcome, exc, obligations,
@@ -1623,7 +1624,7 @@ def explore(fn, *, timeout_ms=20000, max_paths=100000, max_decisions=2000,
         if wall_s is not None and time.time() - t0 > wall_s:
             raise BoundExceeded('exploration wall-clock cap %ss' % wall_s)
         ctx = Ctx(prefix, timeout_ms=timeout_ms, max_decisions=max_decisions,
-                  stats=stats, div_mode=div_mode)
+                  stats=stats, div_mode=div_mode, logic=logic)
         rec = dict(outcome='ok', exc=None, result=None)
         with ctx:
             try:
